@@ -86,6 +86,10 @@ Proof. exact generated_plain_authdata. Qed.
 Theorem c03_plain_structures_unchanged_builders : plain_hold raw_decls plain_builders = true.
 Proof. exact generated_plain_builders. Qed.
 
+(* the cargo features are independent switches with nothing on by default: a feature set of the model means exactly its cfgs *)
+Theorem c03_feature_table_unchanged : features_hold cargo_features = true.
+Proof. exact generated_features. Qed.
+
 Eval vm_compute in "ASSUMPTIONS c03_all_structs_ordered". Print Assumptions c03_all_structs_ordered.
 Eval vm_compute in "ASSUMPTIONS c03_encoder_canonical". Print Assumptions c03_encoder_canonical.
 Eval vm_compute in "ASSUMPTIONS c03_response_body_canonical". Print Assumptions c03_response_body_canonical.
@@ -102,3 +106,4 @@ Eval vm_compute in "ASSUMPTIONS c03_modelled_functions_unchanged_authdata". Prin
 Eval vm_compute in "ASSUMPTIONS c03_modelled_functions_unchanged_builders". Print Assumptions c03_modelled_functions_unchanged_builders.
 Eval vm_compute in "ASSUMPTIONS c03_plain_structures_unchanged_authdata". Print Assumptions c03_plain_structures_unchanged_authdata.
 Eval vm_compute in "ASSUMPTIONS c03_plain_structures_unchanged_builders". Print Assumptions c03_plain_structures_unchanged_builders.
+Eval vm_compute in "ASSUMPTIONS c03_feature_table_unchanged". Print Assumptions c03_feature_table_unchanged.
